@@ -73,6 +73,25 @@ partial def go (steps : List String) (res : List String) (k : Nat) (pool : List 
       else if !nfaEq D (nfaUnionDisjoint (nfaMap (lookupFn ml) A) (nfaMap (lookupFn mr) B)) then
         f := f ++ [s!"mismatch step {k} union is not the image under the reported maps"]
       pool' := pool ++ [some D]
+    | "unionpre" =>
+      -- `Union` with caller-supplied pre-filled maps (injective with disjoint images: what a caller chaining unions supplies)
+      let A ← ent 1
+      let B ← ent 2
+      let D ← newDump
+      let preL ← getE (parts[3]? >>= parseMap?) "bad pre-filled ml"
+      let preR ← getE (parts[4]? >>= parseMap?) "bad pre-filled mr"
+      let vals := preL.map (·.2) ++ preR.map (·.2)
+      if vals.eraseDups.length != vals.length then throw "precondition: pre-filled maps not injective with disjoint images"
+      let ml ← getE ((kv res s!"ml{k}") >>= parseMap?) "bad ml"
+      let mr ← getE ((kv res s!"mr{k}") >>= parseMap?) "bad mr"
+      let ok ← getE (isUnionW D A B FUEL) "fuel"
+      if !ok then f := f ++ [s!"violation step {k} union-language (pre-filled maps)"]
+      else if !nfaEq D (nfaUnionDisjoint (nfaMap (lookupFn ml) A) (nfaMap (lookupFn mr) B)) then
+        f := f ++ [s!"mismatch step {k} union is not the image under the reported maps"]
+      if !(preL.all (fun e => ml.contains e) && preR.all (fun e => mr.contains e)) then
+        f := f ++ [s!"violation step {k} union changed an entry of a pre-filled translation map"]
+      tags := tags ++ ["unionpre=1"]
+      pool' := pool ++ [some D]
     | "uniondisj" =>
       let A ← ent 1
       let B ← ent 2
@@ -163,7 +182,7 @@ partial def go (steps : List String) (res : List String) (k : Nat) (pool : List 
         if impl.contains i then
           if c == 'N' || c == 'E' || c == 'T' || c == 'C' then
             f := f ++ [s!"violation step {k} implemented option word {i} answered {c}"]
-          else if [0, 1, 33].contains i && c != bchar exp then
+          else if [0, 1, 33, 65, 97].contains i && c != bchar exp then
             f := f ++ [s!"violation step {k} incl[word {i}]={c} reference={bchar exp}"]
         else if c != 'N' then
           f := f ++ [s!"violation step {k} unimplemented option word {i} answered {c} instead of NotImplementedException"]
